@@ -90,6 +90,10 @@ snippet("shift-by-array", "def f(a):\n    return ((a[:, None] >> (4 * np.arange(
 snippet("ragged-arith", "def f(x, l):\n    from_shape = RaggedShape(l)\n    e = RaggedArray(np.arange(int(l.sum()))[::-1].copy() % 3, from_shape)\n    return (x[:, np.newaxis] // 10 ** e % 10)",
         [(ints(1234, 56, 7), ints(2, 1, 3)), (ints(905,), ints(3,))])
 snippet("ragged-mask-col-store", "def f(d, l, m):\n    r = RaggedArray(d.copy(), l)\n    r[m, 0] = 45\n    return r", [(np.arange(7), ints(3, 1, 3), np.array([True, False, True]))])
+snippet("ragged-store-forms", "def f(d, l, v, vl):\n    r = RaggedArray(d.copy(), l)\n    r[:, :-1] = RaggedArray(v, vl)\n    r[:, -1] = 99\n    r[1::2, 0] = 77\n    return r",
+        [(np.arange(9), ints(3, 2, 4), ints(50, 51, 52, 53, 54, 55), ints(2, 1, 3))])
+snippet("ragged-store-strided-slice", "def f(d, l, v, vl):\n    r = RaggedArray(d.copy(), l)\n    r[0::2, 1:-1] = RaggedArray(v, vl)\n    return r",
+        [(np.arange(12), ints(3, 2, 4, 3), ints(50, 51, 52), ints(1, 2))])
 snippet("unsafe-extend", "def f(a):\n    return np.diff(unsafe_extend_left(unsafe_extend_right(a)))", [(A5,)])
 
 
